@@ -44,7 +44,10 @@
 //!          its parent login session on the account, not revoked, issued by a credential the
 //!          account still has;
 //!      O4  a UAT accepted at or after issued_at + 300 s has its session on the account, not
-//!          revoked, issued by a credential the account still has.
+//!          revoked, issued by a credential the account still has;
+//!      O5  after the primary credential was purged, replaced or changed through a credential
+//!          update, no login session issued with the old primary credential id is left un-revoked
+//!          (class `C36:replaced-credential-keeps-sessions`).
 use compact_jwt::JwsCompact;
 use hlib::*;
 use kanidm_proto::internal::UserAuthToken;
@@ -764,14 +767,32 @@ impl<'a> Run<'a> {
         if v < 0 { None } else { Some(v as u128) }
     }
 
-    /// After a write that may have replaced the primary credential: tell the model the new id.
-    async fn sync_primary(&mut self, a: usize, t: u128) {
+    /// After a write that replaced / removed the primary credential: tell the model the new id
+    /// (`tag` = `prim` for a purge / purge-and-set modify, `upd` for a credential-update commit), then
+    /// O5: the statement's "credential removed" includes its replacement — every login session on the
+    /// account that was issued with the old primary credential must be revoked by this very write.
+    async fn sync_primary(&mut self, a: usize, t: u128, tag: &str) {
+        let old = self.w.last_prim[a];
         let (prim, _, _, _) = self.w.read_creds(a).await;
         if let Some(p) = prim {
             self.w.last_prim[a] = p;
         }
         let arg = prim.map(|p| self.w.nat(p).to_string()).unwrap_or_else(|| "-".into());
-        self.mw(a, t, &format!("prim {arg}"));
+        self.mw(a, t, &format!("{tag} {arg}"));
+        let re = self.w.read(a).await;
+        if let Some(m) = &re.uats {
+            for (sid, (st, cred)) in m {
+                if *cred == old && *st != St::R {
+                    let (sn, cn) = (self.w.nat(*sid), self.w.nat(old));
+                    self.fail(
+                        "impl-vs-oracle",
+                        "C36:replaced-credential-keeps-sessions",
+                        "changing or removing the primary credential revokes every login session issued with the old one, in that write".into(),
+                        format!("account {}: session {sn} issued with the old primary credential {cn} is {} after op #{} at {t} (primary credential now {arg})", a + 1, st.show(), self.at),
+                    );
+                }
+            }
+        }
     }
 
     /// Execute one op. Returns Some((written account, explicit oauth2 revoke, credential removal)) for a write.
@@ -882,7 +903,7 @@ impl<'a> Run<'a> {
                     if f[0] == "delprim" {
                         self.w.pw[a] = None;
                     }
-                    self.sync_primary(a, t).await;
+                    self.sync_primary(a, t, "prim").await;
                 }
                 self.out.count(&format!("op:{}{}", f[0], if r.is_ok() { "" } else { "-failed" }));
                 r.is_ok().then_some((Some(a), false, true))
@@ -913,7 +934,7 @@ impl<'a> Run<'a> {
                     Ok(()) => {
                         self.w.pw[a] = Some(i);
                         // `init_credential_update` writes nothing on the account; the commit is one modify
-                        self.sync_primary(a, t).await;
+                        self.sync_primary(a, t, "upd").await;
                         self.out.count("op:pwchange");
                     }
                     Err(e) => self.out.count(&format!("op:pwchange-failed:{e}")),
